@@ -635,6 +635,11 @@ Definition finalize_commit (height : Z) : M :=
       else if negb (hashes_to (cs_pblock s) h) then panic 8 s
       else match cs_pblock s with
            | Some pb => if negb (b_valid pb) then panic 9 s
+                        (* BlockStore.SaveBlock: "can only save complete block part sets" — reachable when
+                           +2/3 vote for the hash of the proposal block with another part-set header
+                           (addVote then replaces the parts by an empty set and keeps the block) *)
+                        else if negb (match cs_pparts s with Some p => pt_complete p | None => false end)
+                             then panic 14 s
                         else seq (emit (ODecide height (cs_commit_round s) h)) update_to_next_height s
            | None => panic 8 s
            end
